@@ -231,6 +231,7 @@ CLAIMS = {
 
 TIEC_FULL = {"C01", "C02", "C04", "C05", "C06", "C09", "C14", "C16", "C18"}
 TIEC_STRUCT = {"C07", "C11"}
+TIEC_SOLVER = {"C03", "C13"}
 WIP = "check not registered yet in this revision (model/theorems under construction); see DESIGN.md §8"
 
 
@@ -245,6 +246,13 @@ def main():
             c["text"] += (" In addition the bodies of the numeric kernels concerned are re-translated from /repo's source into Lean "
                           "definitions on every run and proved equal to the model the theorems are about (for every scalar type), so the "
                           "theorems are re-checked against what the source says now.")
+        elif p in TIEC_SOLVER:
+            c["technique"] += " + theorems proved directly about the whole fteik2d/fteik3d bodies re-translated from the source into Lean on every run"
+            c["text"] += (" In addition the complete bodies of fteik2d and fteik3d (domain check, source classification, initialisation "
+                          "loops, sweeps, gradient assembly) are re-translated from /repo's source into Lean on every run, executed "
+                          "bit-identically to the running code by a second driver, and the decision logic is proved about that "
+                          "translation for every input: it fails iff the source is outside the closed model, only with 'source out "
+                          "of bound', and the returned vzero is the slowness of the clamped source cell.")
         elif p in TIEC_STRUCT:
             c["technique"] += " + theorems proved directly about the sweep kernels re-translated from the source into Lean on every run"
             c["text"] += (" In addition the body of `sweep` (2D, 3D) is re-translated from /repo's source into a Lean definition on every "
